@@ -19,7 +19,7 @@ ROOT = os.path.dirname(HERE)
 sys.path.insert(0, HERE)
 import weave  # noqa: E402
 
-WOUT = os.path.join(ROOT, "out", "witness")
+WOUT = os.path.join(os.environ.get("VERIF_OUT") or os.path.join(ROOT, "out"), "witness")
 TOOLCHAIN = os.environ.get("VERIF_REPO_TOOLCHAIN", "stable-x86_64-unknown-linux-gnu")
 
 
